@@ -6,10 +6,14 @@ package main
 // staged ref reaches must survive; the orphan must go.
 
 import (
+	"bytes"
+	"math/rand"
 	"os"
 	"path/filepath"
 	"strings"
+	"time"
 
+	"github.com/google/uuid"
 	"github.com/wrgl/wrgl/pkg/local"
 	"github.com/wrgl/wrgl/pkg/objects"
 	"github.com/wrgl/wrgl/pkg/ref"
@@ -119,4 +123,218 @@ func c12CLIRun(in *c12CLIInput) Res {
 func runC12CLI(ctx *Ctx) {
 	in := &c12CLIInput{GenSeed: int64(ctx.Idx), SetTTL: ctx.R.Intn(2) == 0}
 	ctx.Emit("gc-cli", in, c12CLIRun(in), true, "cli")
+}
+
+// ---------------------------------------------------------------------------------------------
+// `wrgl gc` / `wrgl prune` on a generated repository directory holding transactions of several
+// ages. A transaction is expired when it is in progress and began at least the time-to-live ago;
+// gc discards those (and their txs/<id>/<branch> refs) and then prunes, so what they alone kept
+// alive must be gone when the command returns; everything any other ref reaches (open or committed
+// transactions included) must be intact.
+
+type c12Tx struct {
+	Age    int64  `json:"age"` // seconds since begin
+	Status string `json:"status"`
+}
+
+type c12Ref struct {
+	C  int `json:"c"`  // commit id
+	Tx int `json:"tx"` // index into Txs, -1 for an ordinary ref
+}
+
+type c12GCSpec struct {
+	Cmd     string   `json:"cmd"`    // "gc" or "prune"
+	SetTTL  string   `json:"setTTL"` // value given to `config set transactionTTL` ("" = left to its default)
+	TTL     int64    `json:"ttl"`    // effective time-to-live in seconds
+	Txs     []c12Tx  `json:"txs"`
+	RefList []c12Ref `json:"refList"`
+}
+
+func c12GCCase(ctx *Ctx, seed int64, corpus bool) {
+	root, err := os.MkdirTemp(privateTmp(), "gcrepo-")
+	if err != nil {
+		return
+	}
+	defer os.RemoveAll(root)
+	os.Setenv("XDG_CONFIG_HOME", filepath.Join(root, "xdg"))
+	os.Setenv("HOME", root)
+	in := &c12Input{Seed: seed, Shape: "gc", Refs: []int{}}
+	res := Guard(func() Res {
+		dir := filepath.Join(root, "repo", ".wrgl")
+		os.MkdirAll(filepath.Join(root, "repo"), 0755)
+		rd, err := local.NewRepoDir(dir, "")
+		if err != nil {
+			return Err("repodir")
+		}
+		rdOpen := true
+		defer func() {
+			if rdOpen {
+				rd.Close()
+			}
+		}()
+		if err := rd.Init(); err != nil {
+			return Err("init")
+		}
+		db, err := openC12Badger(rd.KVPath())
+		if err != nil {
+			return Err("badger")
+		}
+		dbOpen := true
+		defer func() {
+			if dbOpen {
+				db.Close()
+			}
+		}()
+		rs := rd.OpenRefStore()
+		w, err := buildC12On(seed, "gc", db, rs)
+		if err != nil {
+			return Err("build")
+		}
+		// parameters of the run, from a stream of their own
+		r := rand.New(rand.NewSource(seed*31 + 7))
+		spec := &c12GCSpec{Cmd: "gc", Txs: []c12Tx{}, RefList: []c12Ref{}}
+		if r.Intn(4) == 0 {
+			spec.Cmd = "prune"
+		}
+		ttl := int64(30 * 24 * 3600)
+		switch r.Intn(3) {
+		case 1:
+			spec.SetTTL, ttl = "24h", 24*3600
+		case 2:
+			spec.SetTTL, ttl = "2h", 2*3600
+		}
+		spec.TTL = ttl
+		names := []string{}
+		for i, c := range w.refs {
+			spec.RefList = append(spec.RefList, c12Ref{C: c, Tx: -1})
+			names = append(names, w.refNames[i])
+		}
+		// commits nobody builds on: what a transaction typically stages
+		isParent := map[int]bool{}
+		for _, c := range w.all {
+			for _, p := range c.Parents {
+				isParent[p] = true
+			}
+		}
+		tips := []int{}
+		for _, c := range w.all {
+			if !isParent[c.ID] {
+				tips = append(tips, c.ID)
+			}
+		}
+		now := time.Now()
+		nTx := 1 + r.Intn(3)
+		ids := []uuid.UUID{}
+		for i := 0; i < nTx; i++ {
+			var b [16]byte
+			r.Read(b[:])
+			b[6] = (b[6] & 0x0f) | 0x40
+			b[8] = (b[8] & 0x3f) | 0x80
+			id := uuid.UUID(b)
+			// well clear of the time-to-live on either side
+			age := []int64{ttl / 24, ttl - ttl/24, ttl + ttl/24, 3 * ttl}[r.Intn(4)]
+			tx := &ref.Transaction{ID: id, Status: ref.TSInProgress, Begin: now.Add(-time.Duration(age) * time.Second)}
+			if r.Intn(4) == 0 {
+				tx.Status = ref.TSCommitted
+				tx.End = tx.Begin.Add(time.Minute)
+			}
+			if _, err := rs.NewTransaction(tx); err != nil {
+				return Err("new-transaction")
+			}
+			ids = append(ids, id)
+			spec.Txs = append(spec.Txs, c12Tx{Age: age, Status: string(tx.Status)})
+			for k, nr := 0, 1+r.Intn(2); k < nr; k++ {
+				c := tips[r.Intn(len(tips))]
+				if r.Intn(4) == 0 {
+					c = 1 + r.Intn(len(w.all))
+				}
+				if err := ref.SaveTransactionRef(rs, id, "br"+itoa(k), w.comSum[c]); err != nil {
+					return Err("tx-ref")
+				}
+				spec.RefList = append(spec.RefList, c12Ref{C: c, Tx: i})
+				names = append(names, ref.TransactionRef(id.String(), "br"+itoa(k)))
+			}
+		}
+		in.GC = spec
+		in.Before = w.dump()
+		db.Close()
+		dbOpen = false
+		rd.Close()
+		rdOpen = false
+
+		if spec.SetTTL != "" {
+			if out, err := cli(dir, "config", "set", "transactionTTL", spec.SetTTL); err != nil {
+				return Res{"res": "err", "kind": "config: " + out + ": " + err.Error()}
+			}
+		}
+		cmdOut, cmdErr := cli(dir, spec.Cmd)
+
+		rd2, err := local.NewRepoDir(dir, "")
+		if err != nil {
+			return Err("reopen")
+		}
+		defer rd2.Close()
+		db2, err := openC12Badger(rd2.KVPath())
+		if err != nil {
+			return Err("reopen-badger")
+		}
+		defer db2.Close()
+		w.db, w.rs = db2, rd2.OpenRefStore()
+		after := w.dump()
+		all, err := ref.ListAllRefs(w.rs)
+		if err != nil {
+			return Err("list-refs")
+		}
+		refsAfter := []int{}
+		known := map[string]bool{}
+		for i, name := range names {
+			known[name] = true
+			if sum, ok := all[name]; ok && bytes.Equal(sum, w.comSum[spec.RefList[i].C]) {
+				refsAfter = append(refsAfter, i)
+			}
+		}
+		extra := 0
+		for name := range all {
+			if !known[name] {
+				extra++
+			}
+		}
+		txsAfter := []int{}
+		for i, id := range ids {
+			if _, err := w.rs.GetTransaction(id); err == nil {
+				txsAfter = append(txsAfter, i)
+			}
+		}
+		v := map[string]interface{}{"cmdErr": cmdErr != nil, "after": after, "usable": c12Usable(w, in.Before, after),
+			"refsAfter": refsAfter, "extraRefs": extra, "txsAfter": txsAfter}
+		if cmdErr != nil {
+			v["cmdOut"] = cmdOut + ": " + cmdErr.Error()
+		}
+		return Ok(v)
+	})
+	if in.Before == nil {
+		// the repository could not be set up: nothing to judge
+		if !corpus {
+			ctx.Emit("gc", map[string]interface{}{"genSeed": seed, "shape": "gc"}, res, false, "gc-setup-failed")
+		}
+		return
+	}
+	tags := []string{"repo-dir", "cmd=" + in.GC.Cmd}
+	expired := false
+	for _, t := range in.GC.Txs {
+		if t.Status == string(ref.TSInProgress) && t.Age >= in.GC.TTL {
+			expired = true
+		}
+	}
+	if expired {
+		tags = append(tags, "expired-transaction")
+	}
+	nt := false
+	if res["res"] == "ok" {
+		nt = len(res["val"].(map[string]interface{})["after"].(*c12Repo).Commits) < len(in.Before.Commits)
+	}
+	if corpus {
+		tags, nt = []string{"corpus"}, true
+	}
+	ctx.Emit("gc", in, res, nt, tags...)
 }
